@@ -16,6 +16,7 @@ LEVEL = "model_checking"
 MODELS = {
     "gd1": dict(cls="SmoothStronglyConvexFunction", par=0, pattern="sf", metric="dist", init="dist", n=1),
     "gd2": dict(cls="SmoothStronglyConvexFunction", par=1, pattern="sl", metric="fval", init="dist", n=2),
+    "gd3": dict(cls="SmoothConvexFunction", par=0, pattern="sf", metric="fval", init="dist", n=3),
     "ppa": dict(cls="ConvexFunction", par=0, pattern="sf", metric="fval", init="dist", n=2),
     "quad": dict(cls="SmoothStronglyConvexQuadraticFunction", par=0, pattern="sf", metric="dist", init="dist", n=1),
     "comp": dict(cls="SmoothStronglyConvexFunction", par=0, pattern="sf", comp="sum", step="prox", metric="dist", init="dist", n=1),
@@ -36,7 +37,7 @@ MODELS = {
     "tiny": dict(cls="SmoothStronglyConvexFunction", par=3, pattern="sf", metric="dist", init="dist", n=5),
 }
 HEUR = ["trace", "logdet1", "logdet2", "logdet3"]
-TOLS = [1e-6, 1e-4, 1e-3, 1e-2]
+TOLS = [1e-6, 1e-4, 1e-3, 1e-2, 0, 1e-7]
 REGS = [1e-3, 1e-2]
 
 
@@ -93,11 +94,33 @@ def judge(case):
         n = type(r["exc"]).__name__
         if n == "SolverError":
             return [], "solver-error"
+        if any(st_ not in ("optimal", "optimal_inaccurate") for st_ in r.get("statuses", [])[1:]):
+            # the SOLVER declared a heuristic problem infeasible / unbounded (tolerance 0 leaves it no room): environment
+            return [], "heuristic-problem-not-solved:%s" % r["statuses"][-1]
         return [("raised:%s:%s" % (be, n), "solve with %s raised %s: %s" % (case["heuristic"], n, str(r["exc"])[:150]))], "raised"
     if r["value"] is None:
         return [("no-value:%s" % be, "the model has optimum %.6g but solve with %s returned None" % (ref["dual"], case["heuristic"]))], "none"
     if r["status"] not in ("optimal",):
-        return [], "heuristic-solve:%s" % r["status"]
+        # the solver calls its last answer inaccurate: tolerances say nothing, but the instance handed to the user must still be
+        # the solver's own last solution (pure linear algebra: Gram reproduction and leaf values against the solver's G and F)
+        pi = []
+        try:
+            if be == "cvxpy":
+                sG_, sF_ = pep.wrapper.G.value, pep.wrapper.F.value
+            else:
+                sG_, sF_ = pep.wrapper.task.sol["barx"][0], pep.wrapper.task.sol["xx"]
+            if sG_ is not None and r["status"] in ("optimal_inaccurate",):
+                G_ = np.array(pep.G_value, dtype=float)
+                F_ = np.array(pep.F_value, dtype=float)
+                if G_.shape == np.shape(sG_) and np.abs(G_ - np.asarray(sG_, float)).max(initial=0.0) > 1e-6 * max(1.0, np.abs(G_).max(initial=0.0)):
+                    pi.append(("instance:gram-not-the-solvers:%s" % be, "after %s (last solver status %s) PEP.G_value differs from the solver's final "
+                               "Gram matrix by %.3g" % (case["heuristic"], r["status"], np.abs(G_ - np.asarray(sG_, float)).max())))
+                nF_ = min(len(F_), len(np.ravel(sF_)))
+                if np.abs(F_[:nF_] - np.ravel(sF_)[:nF_]).max(initial=0.0) > 1e-6 * max(1.0, np.abs(F_).max(initial=0.0)):
+                    pi.append(("instance:values-not-the-solvers:%s" % be, "PEP.F_value differs from the solver's final values"))
+        except Exception:
+            pass
+        return pi, "heuristic-solve:%s" % r["status"]
     if r.get("first_status") not in (None, "optimal"):
         return [], "first-solve:%s" % r.get("first_status")      # the certificate comes from the first solver call
     tol = solving.tolerance(be, "CLARABEL")
